@@ -27,7 +27,12 @@ def plainKind (k : RegKind) : Bool := k != .gpbhi && k != .gpb && k != .sreg
 
 /-- the opcode word the class hands to `EmitVexEvexR`: `_Lx` classes add LL from the sizes of the first two operands -/
 def finalOp (e : Entry) (lxEnc : Nat) : BitVec 32 :=
-  if e.enc == lxEnc then
+  if e.enc == 0x7B then          -- VexRvmi_KEvex
+    e.mainOp ||| ((if e.kinds.getD 0 .none == .k then 1#32 else 0#32) <<< 12)
+  else if e.enc == 0x76 || e.enc == 0x7D then          -- VexRvm_Lx_KEvex / VexRvmi_Lx_KEvex: EVEX is forced when the destination is a mask register
+    (e.mainOp ||| ((if e.kinds.getD 0 .none == .k then 1#32 else 0#32) <<< 12)) |||
+      opcodeLBySize ((Op.reg (rtypeOf (e.kinds.getD 0 .none)) 0).rmSize ||| (Op.reg (rtypeOf (e.kinds.getD 1 .none)) 0).rmSize)
+  else if e.enc == lxEnc then
     e.mainOp ||| opcodeLBySize ((Op.reg (rtypeOf (e.kinds.getD 0 .none)) 0).rmSize ||| (Op.reg (rtypeOf (e.kinds.getD 1 .none)) 0).rmSize)
   else if e.enc == 0x73 then      -- VexRvm_Wx: W from a 64-bit destination or an 8-byte r/m operand
     e.mainOp ||| (if e.kinds.getD 0 .none == .gpq || (Op.reg (rtypeOf (e.kinds.getD 2 .none)) 0).rmSize == 8 then kW else 0#32)
@@ -121,7 +126,7 @@ theorem shapeOk3_spec (r : Rule) (f0 f1 f2 : FormOp) (k0 k1 k2 : RegKind) (hops 
 def entryOkRvm (e : Entry) : Bool :=
   match e.rule.ops, e.kinds with
   | [f0, f1, f2], [k0, k1, k2] =>
-    (e.enc == 0x72 || e.enc == 0x75 || e.enc == 0x73) && (vexRuleOk e.rule 0 && (rowAgreeOk e.rule (finalOp e 0x75) && (e.iflags &&& 0x1000000#32 == 0#32 &&
+    (e.enc == 0x72 || e.enc == 0x75 || e.enc == 0x73 || e.enc == 0x76) && (vexRuleOk e.rule 0 && (rowAgreeOk e.rule (finalOp e 0x75) && (e.iflags &&& 0x1000000#32 == 0#32 &&
     (f0.role == .reg && (f1.role == .vvvv && (f2.role == .rm && shapeOk3 e.rule f0 f1 f2 k0 k1 k2))))))
   | _, _ => false
 
@@ -244,7 +249,7 @@ def entryOkRm (e : Entry) : Bool :=
 def entryOkRvmi (e : Entry) : Bool :=
   match e.rule.ops, e.kinds with
   | [f0, f1, f2, f3], [k0, k1, k2] =>
-    (e.enc == 0x7A || e.enc == 0x7C) && (vexRuleOk e.rule 1 && (rowAgreeOk e.rule (finalOp e 0x7C) && (e.iflags &&& 0x1000000#32 == 0#32 &&
+    (e.enc == 0x7A || e.enc == 0x7C || e.enc == 0x7B || e.enc == 0x7D) && (vexRuleOk e.rule 1 && (rowAgreeOk e.rule (finalOp e 0x7C) && (e.iflags &&& 0x1000000#32 == 0#32 &&
     (f0.role == .reg && (f1.role == .vvvv && (f2.role == .rm && (f3.role == .imm && (immBitsOf f3 == 8 && shapeOk3 e.rule f0 f1 f2 k0 k1 k2))))))))
   | _, _ => false
 
